@@ -115,7 +115,7 @@ Section C09.
      are one entry per non-empty bucket, whose value is the finalised left fold of the function's update over exactly the
      entries of that fingerprint that fall into that bucket, in arrival order (series_out); series are never mixed *)
   Theorem aggregation_buckets : forall c k dur bs ss l',
-    agg_specified k = true -> agg_input_ok V c dur (List.concat bs) -> 0 <= stream_len c dur ->
+    agg_covered k = true -> agg_input_ok V c dur (List.concat bs) -> 0 <= stream_len c dur ->
     fold_entries V (agg_ops V v0 v1 vadd vdiv vltb veqb vofZ k c dur) [] (List.concat bs) = Ok (ss, l') ->
     forall f, proj V f (List.concat (run_stage c (SAgg V k dur) bs)) =
               match proj V f (List.concat bs) with
@@ -129,7 +129,7 @@ Section C09.
   Qed.
 
   (* stage_meets_definition for range and vector aggregation (rate, count_over_time, bytes_rate, bytes_over_time, unwrapped
-     rate / sum / avg / max / min / first / last _over_time, sum / min / max / avg / count): for every batching, every label
+     rate / sum / avg / max / min / first / last _over_time, absent_over_time, sum / min / max / avg / count): for every batching, every label
      set m whose entries are exactly the entries carrying fingerprint fpf m (what the parser and by/without stages
      establish, and what hash.go breaks for colliding sets), the stage sends for that series exactly the reference's
      buckets: same timestamps, same values, same labels.  The float facts used are listed as hypotheses.                 *)
@@ -137,7 +137,7 @@ Section C09.
     vltb v0 v0 = false -> vltb v0 v1 = true -> veqb v0 v0 = true -> veqb v1 v0 = false -> vltb v0 (vadd v0 v1) = true ->
     (forall x, vltb v0 x = true -> vltb v0 (vadd x v1) = true) -> (forall x, vltb v0 x = true -> veqb x v0 = false) ->
     forall k c dur bs ss l' m e0 rest,
-    agg_specified k = true -> agg_input_ok V c dur (List.concat bs) ->
+    agg_covered k = true -> agg_input_ok V c dur (List.concat bs) ->
     fold_entries V (agg_ops V v0 v1 vadd vdiv vltb veqb vofZ k c dur) [] (List.concat bs) = Ok (ss, l') ->
     (forall e, In e (List.concat bs) -> N.eqb (e_fp V e) (fpf m) = lbls_eqb (lbl_of V e) m) ->
     proj V (fpf m) (List.concat bs) = e0 :: rest -> e_lbl V e0 = Some m ->
@@ -229,7 +229,7 @@ Example aggregation_hypotheses_met :
   let mk := fun ts v => {| e_ts := ts; e_fp := 5%N; e_lbl := Some m; e_msg := EmptyString; e_val := v; e_err := ENone |} in
   let c := {| c_from := 0; c_to := 20; c_limit := 0 |} in
   let bs := [[mk 1 3; mk 12 7]; [mk 2 1]] in
-  agg_specified (KUnwrap UMin) = true /\ agg_input_ok Z c 10 (List.concat bs) /\
+  agg_covered (KUnwrap UMin) = true /\ agg_input_ok Z c 10 (List.concat bs) /\
   (exists ss l', fold_entries Z (agg_ops Z 0 1 Z.add Z.div Z.ltb Z.eqb (fun z => z) (KUnwrap UMin) c 10) [] (List.concat bs) = Ok (ss, l')) /\
   (forall e, In e (List.concat bs) -> N.eqb (e_fp Z e) 5%N = lbls_eqb (lbl_of Z e) m) /\
   proj Z 5%N (List.concat bs) = mk 1 3 :: [mk 12 7; mk 2 1] /\
